@@ -441,6 +441,367 @@ namespace sim
          return s;
       }
 
+      // sample strings an atom accepts (first) and near misses (rest)
+      const char* atom_sample( Rng& r, int a )
+      {
+         switch( a ) {
+            case ATOM_ONE_A: return "a";
+            case ATOM_ONE_B: return "b";
+            case ATOM_ONE_ABC: return r.chance( 1, 2 ) ? "c" : "a";
+            case ATOM_NOT_ONE_A: return "b";
+            case ATOM_RANGE_AC: return "b";
+            case ATOM_RANGES: return r.chance( 1, 2 ) ? "5" : "c";
+            case ATOM_NOT_RANGE: return "9";
+            case ATOM_ANY: return r.chance( 1, 3 ) ? "\n" : "x";
+            case ATOM_EOL: return r.chance( 1, 2 ) ? "\r\n" : "\n";
+            case ATOM_EOLF: return r.chance( 1, 2 ) ? "\n" : "";
+            case ATOM_BYTES2: return "xy";
+            case ATOM_BYTES3: return "x\ny";
+            case ATOM_STR_AB: return "ab";
+            case ATOM_STR_ABC: return "abc";
+            case ATOM_STR_CRLF: return "\r\n";
+            case ATOM_ISTR_AB: return r.chance( 1, 2 ) ? "Ab" : "aB";
+            case ATOM_KEYWORD_AB: return "ab";
+            case ATOM_IDENTIFIER: return r.chance( 1, 2 ) ? "ab_1" : "_";
+            case ATOM_EVERYTHING: return "tail";
+            case ATOM_UTF8_ANY: return r.chance( 1, 2 ) ? "\xe2\x82\xac" : "\xf0\x9f\x98\x80";
+            case ATOM_UTF8_ONE: return "\xc3\xa9";
+            case ATOM_UTF8_RANGE: return r.chance( 1, 2 ) ? "\xc3\xa9" : "\xe2\x82\xac";
+            case ATOM_UTF8_BOM: return "\xef\xbb\xbf";
+            case ATOM_UINT8_ANY: return "\xff";
+            case ATOM_UINT16_ANY: return "\x01\x02";
+            case ATOM_UINT32_ONE: return "aaaa";
+            case ATOM_REP_ONE: return r.chance( 1, 2 ) ? "aa" : "a";
+            case ATOM_UNSIGNED: return r.chance( 1, 3 ) ? "0" : ( r.chance( 1, 2 ) ? "42" : "01" );
+            case ATOM_SIGNED: return r.chance( 1, 3 ) ? "-7" : ( r.chance( 1, 2 ) ? "+12" : "-01" );
+            case ATOM_MAXIMUM: return r.chance( 1, 3 ) ? "12" : ( r.chance( 1, 2 ) ? "99" : "100" );
+            case ATOM_RAW0: return r.chance( 1, 2 ) ? "[=[x]]y]=]" : "[[\nab]]";
+            case ATOM_DIGIT: return "7";
+            case ATOM_ALPHA: return "q";
+            case ATOM_SPACE: return r.chance( 1, 2 ) ? " " : "\n";
+            case ATOM_BLANK: return r.chance( 1, 2 ) ? " " : "\t";
+            case ATOM_XDIGIT: return "f";
+            case ATOM_TWO_B: return "bb";
+            case ATOM_THREE_A: return "aaa";
+            case ATOM_NUL: return "";
+            case ATOM_ONE_LF: return "\n";
+            case ATOM_ONE_CR: return "\r";
+            case ATOM_NOT_ONE_LF: return "z";
+            case ATOM_ONE_OPEN: return "[";
+            case ATOM_ONE_CLOSE: return "]";
+            case ATOM_ONE_EQ: return "=";
+            case ATOM_NAMED_AB: return "ab";
+            case ATOM_NAMED_DIGITS: return r.chance( 1, 2 ) ? "123" : "4";
+            case ATOM_NAMED_C: return "c";
+            case ATOM_NAMED_WS: return r.chance( 1, 2 ) ? " \n" : "";
+            case ATOM_DEEP7: return r.chance( 1, 2 ) ? "bab" : "c";
+            case ATOM_DEEP9: return r.chance( 1, 2 ) ? "bcab0" : "c";
+            case ATOM_LIST_DIGITS: return r.chance( 1, 2 ) ? "1, 22 ,3" : "5";
+            default: return "";
+         }
+      }
+
+      const char* matom_sample( int a )
+      {
+         switch( a ) {
+            case MATOM_ONE_A: return "a";
+            case MATOM_ONE_B: return "b";
+            case MATOM_ANY: return "x";
+            case MATOM_STR_AB: return "ab";
+            case MATOM_DIGIT: return "3";
+            default: return "";
+         }
+      }
+
+      // grammar-directed input: walk the table and emit text the rules are likely to accept
+      struct Deriver
+      {
+         Rng& r;
+         const Grammar& g;
+         std::string out;
+         unsigned budget = 64;
+
+         unsigned reps( unsigned lo, unsigned hi )
+         {
+            return r.range( lo, hi );
+         }
+
+         void mini( int j, int depth )
+         {
+            if( depth > 10 || out.size() > budget ) {
+               return;
+            }
+            const NodeRow& row = g.m[ j % MINIS ];
+            const int a = row.kid[ 0 ] % MINIS, b = row.kid[ 1 ] % MINIS;
+            switch( row.op ) {
+               case MOP_ATOM:
+                  out += matom_sample( row.atom );
+                  break;
+               case MOP_SEQ2:
+                  mini( a, depth + 1 );
+                  mini( b, depth + 1 );
+                  break;
+               case MOP_SOR2:
+                  mini( r.chance( 1, 2 ) ? a : b, depth + 1 );
+                  break;
+               case MOP_STAR:
+                  for( unsigned i = reps( 0, 2 ); i > 0; --i ) {
+                     mini( a, depth + 1 );
+                  }
+                  break;
+               case MOP_OPT:
+                  if( r.chance( 1, 2 ) ) {
+                     mini( a, depth + 1 );
+                  }
+                  break;
+               case MOP_AT:
+               case MOP_NOT_AT:
+                  break;
+               default:
+                  mini( a, depth + 1 );
+                  break;
+            }
+         }
+
+         void node( int n, int depth )
+         {
+            if( depth > 12 || out.size() > budget ) {
+               return;
+            }
+            const NodeRow& row = g.n[ n % NODES ];
+            const int a = row.kid[ 0 ] % NODES, b = row.kid[ 1 ] % NODES, c = row.kid[ 2 ] % NODES;
+            const int d = depth + 1;
+            switch( row.op ) {
+               case OP_ATOM:
+                  if( row.atom == ATOM_NUL ) {
+                     out += '\0';
+                  }
+                  else {
+                     out += atom_sample( r, row.atom );
+                  }
+                  break;
+               case OP_SEQ2:
+               case OP_IF_MUST:
+                  node( a, d );
+                  node( b, d );
+                  break;
+               case OP_SEQ3:
+                  node( a, d );
+                  node( b, d );
+                  node( c, d );
+                  break;
+               case OP_SOR2:
+                  node( r.chance( 1, 2 ) ? a : b, d );
+                  break;
+               case OP_SOR3: {
+                  const unsigned k = r.below( 3 );
+                  node( k == 0 ? a : ( k == 1 ? b : c ), d );
+                  break;
+               }
+               case OP_STAR:
+               case OP_REP_MAX:
+               case OP_REP_OPT:
+                  for( unsigned i = reps( 0, 2 ); i > 0; --i ) {
+                     node( a, d );
+                  }
+                  break;
+               case OP_PLUS:
+               case OP_REP_MIN:
+               case OP_REP_MIN_MAX:
+                  for( unsigned i = reps( 1, 3 ); i > 0; --i ) {
+                     node( a, d );
+                  }
+                  break;
+               case OP_REP2:
+                  node( a, d );
+                  node( a, d );
+                  break;
+               case OP_OPT:
+                  if( r.chance( 2, 3 ) ) {
+                     node( a, d );
+                  }
+                  break;
+               case OP_AT:
+                  if( r.chance( 1, 3 ) ) {
+                     node( a, d );
+                  }
+                  break;
+               case OP_NOT_AT:
+                  break;
+               case OP_UNTIL1:
+                  for( unsigned i = reps( 0, 3 ); i > 0; --i ) {
+                     out += "x";
+                  }
+                  node( a, d );
+                  break;
+               case OP_UNTIL2:
+                  for( unsigned i = reps( 0, 2 ); i > 0; --i ) {
+                     node( b, d );
+                  }
+                  node( a, d );
+                  break;
+               case OP_LIST:
+               case OP_LIST_MUST:
+               case OP_LIST_TAIL:
+                  node( a, d );
+                  for( unsigned i = reps( 0, 2 ); i > 0; --i ) {
+                     node( b, d );
+                     node( a, d );
+                  }
+                  if( row.op == OP_LIST_TAIL && r.chance( 1, 2 ) ) {
+                     node( b, d );
+                  }
+                  break;
+               case OP_LIST_PAD:
+               case OP_LIST_TAIL_PAD:
+                  node( a, d );
+                  for( unsigned i = reps( 0, 2 ); i > 0; --i ) {
+                     if( r.chance( 1, 2 ) ) {
+                        node( c, d );
+                     }
+                     node( b, d );
+                     if( r.chance( 1, 2 ) ) {
+                        node( c, d );
+                     }
+                     node( a, d );
+                  }
+                  break;
+               case OP_PAD:
+                  if( r.chance( 1, 2 ) ) {
+                     node( b, d );
+                  }
+                  node( a, d );
+                  if( r.chance( 1, 2 ) ) {
+                     node( b, d );
+                  }
+                  break;
+               case OP_PAD2:
+                  if( r.chance( 1, 2 ) ) {
+                     node( b, d );
+                  }
+                  node( a, d );
+                  if( r.chance( 1, 2 ) ) {
+                     node( c, d );
+                  }
+                  break;
+               case OP_PAD_OPT:
+                  if( r.chance( 1, 2 ) ) {
+                     node( b, d );
+                  }
+                  if( r.chance( 2, 3 ) ) {
+                     node( a, d );
+                  }
+                  break;
+               case OP_IF_THEN_ELSE:
+               case OP_IF_MUST_ELSE:
+                  if( r.chance( 1, 2 ) ) {
+                     node( a, d );
+                     node( b, d );
+                  }
+                  else {
+                     node( c, d );
+                  }
+                  break;
+               case OP_OPT_MUST:
+               case OP_STRICT:
+                  if( r.chance( 2, 3 ) ) {
+                     node( a, d );
+                     node( b, d );
+                  }
+                  break;
+               case OP_STAR_MUST:
+               case OP_STAR_STRICT:
+               case OP_STAR_PARTIAL:
+                  for( unsigned i = reps( 0, 2 ); i > 0; --i ) {
+                     node( a, d );
+                     node( b, d );
+                  }
+                  if( row.op != OP_STAR_MUST && r.chance( 1, 3 ) ) {
+                     node( a, d );
+                  }
+                  break;
+               case OP_PARTIAL:
+                  node( a, d );
+                  if( r.chance( 1, 2 ) ) {
+                     node( b, d );
+                  }
+                  break;
+               case OP_RAW: {
+                  const unsigned k = r.below( 3 );
+                  out += "[";
+                  out.append( k, '=' );
+                  out += "[";
+                  if( r.chance( 1, 3 ) ) {
+                     out += "\n";
+                  }
+                  for( unsigned i = reps( 0, 3 ); i > 0; --i ) {
+                     node( a, d );
+                  }
+                  if( r.chance( 5, 6 ) ) {
+                     out += "]";
+                     out.append( r.chance( 5, 6 ) ? k : k + 1, '=' );
+                     out += "]";
+                  }
+                  break;
+               }
+               case OP_MINI:
+                  mini( row.kid[ 0 ], d );
+                  break;
+               default:
+                  node( a, d );
+                  break;
+            }
+         }
+      };
+
+      std::string derive_input( Rng& r, const Case& c, const GenParams& p )
+      {
+         Deriver dv{ r, c.g, std::string(), p.max_input };
+         const unsigned tops = ( c.shape == 2 || c.shape == 3 || c.shape == 5 ) ? r.range( 1, 3 ) : 1;
+         for( unsigned i = 0; i < tops; ++i ) {
+            dv.node( 0, 0 );
+         }
+         if( c.shape == 4 ) {
+            dv.node( 1, 0 );
+            dv.node( 2, 0 );
+         }
+         std::string s = dv.out;
+         // mutate
+         unsigned muts = r.chance( 1, 2 ) ? 0 : r.range( 1, 2 );
+         while( muts-- > 0 ) {
+            switch( r.below( 6 ) ) {
+               case 0:
+                  if( !s.empty() ) {
+                     s.resize( r.below( static_cast< std::uint32_t >( s.size() ) ) );
+                  }
+                  break;
+               case 1:
+                  if( !s.empty() ) {
+                     s.erase( r.below( static_cast< std::uint32_t >( s.size() ) ), 1 );
+                  }
+                  break;
+               case 2:
+                  s.insert( r.below( static_cast< std::uint32_t >( s.size() + 1 ) ), tokens[ r.below( N_TOKENS ) ] );
+                  break;
+               case 3:
+                  if( !s.empty() ) {
+                     s[ r.below( static_cast< std::uint32_t >( s.size() ) ) ] = static_cast< char >( r.below( 256 ) );
+                  }
+                  break;
+               case 4:
+                  s += tokens[ r.below( N_TOKENS ) ];
+                  break;
+               default:
+                  s += static_cast< char >( r.below( 256 ) );
+                  break;
+            }
+         }
+         if( s.size() > p.max_input ) {
+            s.resize( p.max_input );
+         }
+         return s;
+      }
+
       void gen_grammar( Rng& r, const GenParams& p, Grammar& g )
       {
          // swarm: enabled subsets and weights per case
@@ -574,7 +935,7 @@ namespace sim
          c.g.n[ 0 ].op = OP_PLUS;
          c.g.n[ 0 ].kid[ 0 ] = 1;
       }
-      c.input = gen_input( r, p );
+      c.input = r.chance( 2, 3 ) ? derive_input( r, c, p ) : gen_input( r, p );
       if( p.max_faults > 0 && p.site_mask != 0 ) {
          const unsigned n = 1 + r.below( p.max_faults );
          for( unsigned i = 0; i < n; ++i ) {
